@@ -90,9 +90,14 @@ class Check(PropertyCheck):
             if dump(la) != dump(fresh):
                 res.append(("seed-fresh", f"a generator with seed {seed} used alone differs from one used interleaved"))
             c = GeneralInstanceGenerator(**kw)
+            pre = c.generate()
             first = list(c)
-            if len(first) != 4 or len(list(c)) != 4:
+            second = list(c)
+            if len(first) != 4 or len(second) != 4:
                 res.append(("iteration", "iterating (twice) did not yield iteration_limit instances each time"))
+            all_names = [pre.name] + [i.name for i in first + second] + [c.generate().name]
+            if len(set(all_names)) != len(all_names):
+                res.append(("names", f"one generator reused names across generate() and two iterations: {all_names}"))
             names = [i.name for i in la]
             if len(set(names)) != len(names):
                 res.append(("names", f"names reused: {names}"))
